@@ -344,7 +344,9 @@ func runC06(c *Ctx) error {
 					}
 				}
 				for _, sn := range senders {
-					for _, pr := range []int{6, 17, 58} {
+					// tcp, udp, icmp6, and protocols whose number followed by port 0 reads like "6"/"17" followed
+					// by a port (68|0 ~ 6|80, 178|0 ~ 17|80, 62|2 ~ 6|22): no service is defined for them
+					for _, pr := range []int{6, 17, 58, 68, 178, 62, 172, 64, 174} {
 						for _, po := range pset {
 							plan = append(plan, probeT{pr, po, sn.id.IP})
 						}
@@ -355,6 +357,9 @@ func runC06(c *Ctx) error {
 				proto := protos[c.Rng.IntN(len(protos))]
 				if c.Rng.IntN(2) == 0 {
 					proto = []int{6, 17, 58}[c.Rng.IntN(3)]
+				}
+				if k%5 == 4 {
+					proto = (k*37 + i*11) % 256 // every protocol number comes up over the run, without drawing from the random stream
 				}
 				port := ports[c.Rng.IntN(len(ports))]
 				if len(g.svcs) > 0 && c.Rng.IntN(2) == 0 {
